@@ -28,6 +28,17 @@ Definition fp_input (k : keypkt) : bytes :=
 
 Definition fingerprint (k : keypkt) : bytes := sha1 (fp_input k).
 
+(* the code before repair e03112d: publen() of opaque material was 0 *)
+Definition fp_input_prefix (k : keypkt) : bytes :=
+  let plen := pubmat_len_prefix (k_mat k) in
+  let bcde := int_to_bytes (6 + plen) 2 in
+  ([153] ++ firstn 1 bcde ++ lastn 1 bcde)
+  ++ [4]
+  ++ int_to_bytes (k_created k) 4
+  ++ int_to_bytes (k_alg k) 1
+  ++ firstn (Z.to_nat plen) (keymaterial_bytes k).
+Definition fingerprint_prefix (k : keypkt) : bytes := sha1 (fp_input_prefix k).
+
 (* Fingerprint.keyid = self[-16:] of the 40 hex digits = the last 8 octets; shortid = the last 4 *)
 Definition keyid (k : keypkt) : bytes := lastn 8 (fingerprint k).
 Definition shortid (k : keypkt) : bytes := lastn 4 (fingerprint k).
